@@ -171,7 +171,7 @@ PATH_NAMES = sorted(PP.PATH_PARAMS) + PP.SPECIAL
 def run(ctx):
     base = ctx.seed * 7919
     cases = []
-    for rep in range(ctx.n(3, 8)):
+    for rep in range(ctx.n(3, 16)):
         for n in range(0, 185):
             cases.append({'kind': 'lookup', 'n': n, 'seed': base + 31 * n + rep, 'density': (n + rep) % 4, 'utf8': (n + rep) % 2 == 1})
         for n in range(0, 201):
@@ -191,7 +191,7 @@ def run(ctx):
     strat = st.fixed_dictionaries({'name': st.sampled_from(PATH_NAMES),
                                    'lens': st.lists(st.one_of(st.sampled_from(lens_pool), st.integers(0, 184)), max_size=7),
                                    'seed': S.u64, 'density': st.integers(0, 4), 'utf8': st.booleans()})
-    ctx.run_given('syscall', strat, prop_syscall, ctx.n(2500, 8000))
+    ctx.run_given('syscall', strat, prop_syscall, ctx.n(2500, 20000))
     tstrat = st.fixed_dictionaries({'kind': st.sampled_from(['lookup', 'global', 'threadname', 'threadname_prev']),
                                     'n': st.integers(0, 63), 'seed': S.u64, 'density': st.integers(0, 4), 'utf8': st.booleans()})
-    ctx.run_given('text', tstrat, prop_text, ctx.n(1200, 5000))
+    ctx.run_given('text', tstrat, prop_text, ctx.n(1200, 12000))
